@@ -129,8 +129,11 @@ def run_api(prop, tier, seed, profiles, builds, own_guards, crash_decisive=False
             env = envs[k % len(envs)]
             out = os.path.join(od, "t_%s_%s_%d.ndjson" % (b, prof, k))
             s = seed * 100003 + k
-            traces.append((out, b, prof, s, env, None))
-            jobs.append((lambda exe=exes[b], out=out, s=s, prof=prof, env=env: run_driver(exe, out, s, prof, ops[q], maxlive[q], extra_args, env)))
+            tag = (env or {}).get("_tag", "")
+            xargs = list(extra_args) + list((env or {}).get("_args", []))
+            penv = {k: v for k, v in (env or {}).items() if not k.startswith("_")} or None
+            traces.append((out, b, prof, s, env, None, tag))
+            jobs.append((lambda exe=exes[b], out=out, s=s, prof=prof, penv=penv, xargs=xargs: run_driver(exe, out, s, prof, ops[q], maxlive[q], xargs, penv)))
             k += 1
     for j, pg in enumerate(progs):
         b = builds[j % len(builds)]
@@ -138,7 +141,7 @@ def run_api(prop, tier, seed, profiles, builds, own_guards, crash_decisive=False
         write_prog(pg, pp)
         out = os.path.join(od, "g_%s_%d.ndjson" % (b, j))
         s = seed * 7919 + j
-        traces.append((out, b, "gen", s, None, pp))
+        traces.append((out, b, "gen", s, None, pp, ""))
         jobs.append((lambda exe=exes[b], out=out, s=s, pp=pp: run_driver(exe, out, s, "c01", 0, 64, ["--prog", pp] + list(extra_args))))
     t0 = time.time()
     res = vlib.parallel(jobs, nproc=14)
@@ -171,7 +174,8 @@ def run_api(prop, tier, seed, profiles, builds, own_guards, crash_decisive=False
         for name, line, detail in r["guardfails"]:
             tpath, lline = locate(members, line)
             op, ev = op_at(tpath, lline)
-            sig = "%s:%s" % (name, op)
+            tag = next((t[6] for t in g if t[0] == tpath), "")
+            sig = "%s:%s%s" % (name, op, ("@" + tag) if tag else "")
             if (sig, tpath) in seen:
                 continue
             seen.add((sig, tpath))
